@@ -14,6 +14,7 @@
    correlated with the request by payload.
 """
 import json
+import os
 import random
 import shutil
 
@@ -111,6 +112,9 @@ def run_jobs(ctx, jobs, tag, workers=6):
     rc, text, wall = ctx.go_test("freighter/go", "./", HARNESS, "^TestVerifUnaryCases$",
                                  env=env, tag="go_" + tag, timeout=1500)
     rows = ctx.read_ndjson(op)
+    if os.environ.get("VERIF_KEEP"):      # debugging aid: keep the harness input / output
+        os.makedirs("/tmp/x02keep", exist_ok=True)
+        shutil.copy(jp, "/tmp/x02keep/"), shutil.copy(op, "/tmp/x02keep/")
     if rc != 0 or len(rows) != len(jobs):
         raise vlib.Inconclusive("unary harness failed rc=%s rows=%d/%d:\n%s" % (rc, len(rows), len(jobs), text[-2500:]))
     return {r["i"]: r for r in rows}, wall
@@ -296,6 +300,7 @@ def confirm_and_report(ctx, mism, tag):
         else:
             seen[sig] = items
     n = 0
+    flaky = []
     for sig, items in seen.items():
         n += 1
         if n > 10:
@@ -312,10 +317,15 @@ def confirm_and_report(ctx, mism, tag):
                 if d2 and d2[0] == d[0]:
                     again += 1
         if again == 0:
-            raise vlib.Inconclusive("disagreement did not reproduce: %s | %s" % (sig, describe_case(case, job)))
+            flaky.append("%s | %s" % (sig, describe_case(case, job)))
+            continue
         ctx.report(sig, "%s: %s (%d cases of this run, reproduced %d/3)" % (describe_case(case, job), d[2], len(items), again),
                    {"case": case, "job": job, "row": row, "detail": d[2], "hits": len(items),
                     "cmd": "python3 tools/verif.py replay X02 <this file>"})
+    if flaky:
+        ctx.notes.append("disagreements that did not reproduce: %s" % flaky[:3])
+        if not ctx.violations and not ctx.known_hits:
+            raise vlib.Inconclusive("disagreement did not reproduce: %s" % flaky[0])
 
 
 # ------------------------------------------------------------------ concurrency stage
